@@ -750,6 +750,32 @@ static void build(vf::Plan &plan, const vf::Opts &o)
                    },
                    [](uint64_t i) { return strf("rounding mode #%u, value #%u", (unsigned)(i / 8), (unsigned)(i % 8)); });
     }
+    // a precision written as a bare '.' means 0, as in printf("%.f")
+    {
+        static const char *const BF[8] = {"{.f}", "{.e}", "{.E}", "{.}", "{8.f}|", "{+.f}", "{<8.e}|", "{_*>9.}"};
+        static const char *const BC[8] = {"%.f", "%.e", "%.E", "%.g", "%8.f|", "%+.f", "%-8.e|", "%.g"};
+        static const double BV2[5] = {1.5, 2.5, 0.04, 123456.789, -0.6};
+        plan.stage("a bare '.' precision ({.f}, {.e}, {.}, {8.f}, ...) x 5 values x float / double against printf(\"%.f\")", 8 * 5 * 2,
+                   [](uint64_t i, Ctx &c) {
+                       unsigned fi = (unsigned)vf::take(i, 8), vi = (unsigned)vf::take(i, 5);
+                       bool fl = i != 0;
+                       double v = fl ? (double)(float)BV2[vi] : BV2[vi];
+                       char b[128];
+                       snprintf(b, sizeof b, BC[fi], v);
+                       std::string want = b;
+                       if (fi == 7) want = std::string(9 > want.size() ? 9 - want.size() : 0, '*') + want;
+                       std::string got;
+                       vf::Outcome o = vf::guard([&] {
+                           ST::string r = fl ? ST::format(BF[fi], (float)BV2[vi]) : ST::format(BF[fi], BV2[vi]);
+                           got.assign(r.c_str(), r.size());
+                       });
+                       VF_COUNT("validated");
+                       if (!o.ok()) c.fail(strf("bare-dot-precision:%s", vf::outkind_name(o.kind)), o.str());
+                       else if (got != want) c.fail("bare-dot-precision:differs-from-printf", strf("ST::format(\"%s\", %s) returned %s, printf gives %s", BF[fi], dstr(v).c_str(), got.c_str(), want.c_str()));
+                       c.nontrivial();
+                   },
+                   [](uint64_t i) { return strf("bare-dot case %u", (unsigned)i); });
+    }
     // a user-defined sink whose append / append_char format numbers themselves (re-entrancy from the sink side)
     {
         static const char *const RF[6] = {"{100.70f}", "{>90.66f}|", "{<90.66e}|", "{}", "{_*120.80f}", "x{.64f}y{>80}z"};
